@@ -199,7 +199,7 @@ const MAX_ABNORMAL_TRIAGED: u64 = 6;
 static WANT_OUTCOMES: std::sync::atomic::AtomicBool = std::sync::atomic::AtomicBool::new(false);
 static HASH_SAMPLE: std::sync::atomic::AtomicU64 = std::sync::atomic::AtomicU64::new(1);
 
-pub const ALL_DOMAINS: &[&str] = &["D5", "D6", "D7", "D8", "D11", "D12", "D13", "D14", "D15", "D17"];
+pub const ALL_DOMAINS: &[&str] = &["D5", "D6", "D7", "D8", "D11", "D11c", "D12", "D13", "D14", "D15", "D17"];
 
 impl Finding {
     fn matches(&self, sig: &str) -> bool {
